@@ -3,6 +3,7 @@ import UF.Driver.Ops.GroupE
 import UF.Driver.Ops.GroupI2
 import UF.Driver.Ops.GroupL09
 import UF.Compose5.TextRef
+import UF.Compose5.GrammarW
 /- Ops of integration group L (see notes/AGENT_GUIDE.md). Return `none` for ops of other groups. -/
 namespace UF.Ops.L
 open UF UF.I2 UF.L
@@ -48,22 +49,44 @@ def decMods (w : W) : Option (List Mod) := do
   let xs ← w.list?
   xs.mapM decMod
 
+def decCVals (w : W) : Option (List (Bool × CVal)) := do
+  let xs ← w.list?
+  xs.mapM fun e => match e with
+    | .l [n, .a "p", v] => do pure (← n.bool?, .plain (← v.bytes?))
+    | .l [n, .a "s", v] => do pure (← n.bool?, .quoted false (← v.bytes?))
+    | .l [n, .a "d", v] => do pure (← n.bool?, .quoted true (← v.bytes?))
+    | _ => none
+
+/-- One modifier of the WIDER grammar (group P2): `(clientq ((neg p|s|d value)…))`, `(next)`, or a modifier of the
+    old grammar. -/
+def decModW (w : W) : Option ModW :=
+  match w with
+  | .l [.a "clientq", vs] => (decCVals vs).map .clientQ
+  | .l [.a "next"] => some .notExtension
+  | _ => (decMod w).map .base
+
+def decModsW (w : W) : Option (List ModW) := do
+  let xs ← w.list?
+  xs.mapM decModW
+
 /-- `l.textref <exception> <pattern> (<mod>…) <Go's rendering> <listID> <addrs> <prefixes> <Q> <psl>`
 
     answer `<renderings agree>|<T|F|err>`:
     model = the complete parser model on the text RENDERED BY LEAN (`L.render`) + `Match` over `modelPat`;
-    spec  = `specMatchText` of the STRUCTURED modifiers (`ModSpec.ofMods`), the pattern as written and the
-            request — no parser, no record (theorem `c04_text_ref`); where the parser model rejects the text the
-            reference has nothing to say and repeats `err`.
-    `ood` outside the grammar domain (`patOK`, `modsOK`) or where the pattern model does not answer. -/
+    spec  = `specMatchText` of the STRUCTURED modifiers (`ModSpec.ofModsW`; `= ModSpec.ofMods` on the old
+            grammar), the pattern as written and the request — no parser, no record (theorems `c04_text_ref`,
+            `c04_wide_text_ref`); where the parser model rejects the text the reference has nothing to say and
+            repeats `err`.
+    `ood` outside the grammar domain (`patOKW`, `slashOK`, `modsOKW`), for `/regex/` patterns, or where the
+    pattern model does not answer. -/
 def opTextRef (args : List W) : String :=
   match args with
   | [wl, pat, mods, gotext, id, addrs, prefixes, q, psl] =>
-    match wl.bool?, pat.bytes?, decMods mods, gotext.bytes?, id.int?, decAddrTable addrs,
+    match wl.bool?, pat.bytes?, decModsW mods, gotext.bytes?, id.int?, decAddrTable addrs,
         decPrefixTable prefixes, decRequest q, decPslTable psl with
     | some wl, some pat, some ms, some gotext, some id, some addrs, some prefixes, some q, some psl =>
-      if !patOK pat || !modsOK ms then "ood ood" else
-      let text := render wl pat ms
+      if !patOKW pat || !slashOK pat ms || !modsOKW ms then "ood ood" else
+      let text := renderW wl pat ms
       let same := outBool (text == gotext)
       let ext := withModelPat { mkExt psl addrs [] with parsePrefix := tableLookup prefixes none }
       let pa := E.parseNetRule (UF.Ops.I2.ruleExtProbe ext reShortcutM none).px text id
@@ -72,11 +95,12 @@ def opTextRef (args : List W) : String :=
       | .error .err => same ++ "|err " ++ same ++ "|err"
       | .error .panic => same ++ "|PANIC " ++ same ++ "|PANIC"
       | .ok r =>
+        if UF.isRegexPattern r.pattern then "ood ood" else
         if !matchDecided ext r q then "ood ood" else
         let decided := (modelPat r.pattern (r.isEnabled Facts.OptionMatchCase) (matchTarget r q)).isSome
         let spec :=
           if !q.inDomainB || !decided || !UF.Ops.I2.reqWellFormed q then "-"
-          else same ++ "|" ++ outBool (specMatchText ext pat (ModSpec.ofMods ms) q)
+          else same ++ "|" ++ outBool (specMatchText ext pat (ModSpec.ofModsW ms) q)
         same ++ "|" ++ outBool (r.matches ext q) ++ " " ++ spec
     | _, _, _, _, _, _, _, _, _ => "bad-decode"
   | _ => "bad-arity"
